@@ -108,6 +108,9 @@ func (c *Ctx) c07Chunk(gs []*gast.Grammar, rng *rand.Rand) {
 			c.CovSet("other_exit", fmt.Sprintf("%d %s", inf.exit, shortFail(firstLine(inf.stderr))))
 		case rejectedLR && inf.static:
 			c.CovAdd("rejected_and_cyclic", 1)
+			if i%50 == 3 {
+				c.Sample(map[string]any{"grammar": gast.Short(g), "pigeon": "rejected: left recursion", "model": "first-call cycle"})
+			}
 		case rejectedLR && !inf.static:
 			_, _, key, n := findReentry(g, c07Inputs(g, rng))
 			if key != "" {
@@ -118,6 +121,9 @@ func (c *Ctx) c07Chunk(gs []*gast.Grammar, rng *rand.Rand) {
 				Grammar: texts[i], Sig: c07Sig(g, "rejected")})
 		case inf.exit == 0 && !inf.static:
 			c.CovAdd("accepted_and_acyclic", 1)
+			if i%50 == 7 {
+				c.Sample(map[string]any{"grammar": gast.Short(g), "pigeon": "accepted", "model": "no first-call cycle"})
+			}
 		case inf.exit == 0 && inf.static:
 			in, entry, key, _ := findReentry(g, c07Inputs(g, rng))
 			if key == "" {
